@@ -58,6 +58,14 @@ impl<R: SLike> SubSpecImpl<R> for Scalar {
 impl<R: SLike> Sub<R> for Scalar { type Output = Scalar;
     #[verifier::external_body] fn sub(self, rhs: R) -> Scalar { unimplemented!() } }
 
+impl NegSpecImpl for Scalar {
+    open spec fn obeys_neg_spec() -> bool { true }
+    open spec fn neg_req(self) -> bool { true }
+    open spec fn neg_spec(self) -> Scalar { s_neg(self) }
+}
+impl Neg for Scalar { type Output = Scalar;
+    #[verifier::external_body] fn neg(self) -> Scalar { unimplemented!() } }
+
 impl PartialEqSpecImpl for Scalar {
     open spec fn obeys_eq_spec() -> bool { true }
     open spec fn eq_spec(&self, other: &Self) -> bool { *self == *other }
